@@ -7,6 +7,8 @@ import (
 	"os"
 	"strings"
 	"time"
+
+	"github.com/diiyw/nodis/ds/zset"
 )
 
 func main() {
@@ -67,6 +69,7 @@ type state struct {
 	inst    map[string]*instance
 	current string
 	clients map[string]*client
+	sl      *zset.VerifSL // current bare skiplist of the sl ops
 }
 
 func newState() *state { return &state{inst: map[string]*instance{}, clients: map[string]*client{}} }
@@ -92,6 +95,8 @@ func (st *state) dispatch(toks []string) (string, string) {
 		return st.respOp(toks)
 	case "scanall":
 		return st.scanAll(toks)
+	case "sl":
+		return st.slOp(toks)
 	}
 	return "bad-op", ""
 }
